@@ -272,7 +272,7 @@ def run(ctx):
         ps = sym.SymExec(f, sb, peel=True, count_next=True, inline=lambda n_: False if n_ in g.W else None, max_paths=200000).run()
         for p in ps:
             for e in p.events:
-                if e.kind != "call" or e.depth != 0 or g.wrole.get(e.name) != "castling":
+                if e.kind != "call" or not (e.depth == 0 or e.fn.startswith(st + "::{closure")) or g.wrole.get(e.name) != "castling":
                     continue
                 colour, wing, val = L.lift(e.args[1]), e.args[2], e.args[3]
                 if not (val[0] == "agg" and val[2] == "Some"):
